@@ -97,3 +97,123 @@ Example discard_iff_nonvacuous :
   /\ discarded (Some default_hooks) [404] 404 [] = true
   /\ needs_retry (Some default_hooks) [] 403 (bs "challenge") = true.
 Proof. vm_compute. repeat split; reflexivity. Qed.
+
+(* ---- purity of the hook chain (added after the sixth round) ------------------------------ *)
+(* what a hook may depend on / do: it hands the body reader on exactly as it received it, and
+   its verdict is the same whatever that body is *)
+Definition pure_hook {B} (h : ghook B) : Prop :=
+  forall r, snd (h r) = rs_body r /\ forall b, fst (h (set_body r b)) = fst (h r).
+
+Lemma set_body_same {B} (r : resp B) : set_body r (rs_body r) = r.
+Proof. destruct r; reflexivity. Qed.
+
+Lemma hook_fn_pure {B} dl h : pure_hook (@hook_fn B dl h).
+Proof. intros r. split; [reflexivity|]. intros b. reflexivity. Qed.
+
+Lemma gchain_loop_pure {B} (hs : list (ghook B)) :
+  Forall pure_hook hs -> pure_hook (gchain_loop hs).
+Proof.
+  induction hs as [|h hs IH]; intros HF r.
+  - split; [reflexivity|]. intros b. reflexivity.
+  - inversion HF as [|h' hs' Hh Hhs]; subst. specialize (IH Hhs).
+    destruct (Hh r) as [Hb Hv].
+    split.
+    + cbn [gchain_loop]. destruct (h r) as [[d why] b'] eqn:E. cbn [snd] in Hb. subst b'.
+      destruct d; [reflexivity|]. rewrite set_body_same. apply IH.
+    + intros b. cbn [gchain_loop].
+      pose proof (Hv b) as Hvb. destruct (Hh (set_body r b)) as [Hb2 _].
+      destruct (h (set_body r b)) as [[d2 why2] b2] eqn:E2.
+      destruct (h r) as [[d why] b'] eqn:E. cbn [fst snd] in *. subst b' b2.
+      inversion Hvb; subst d2 why2.
+      destruct d; [reflexivity|].
+      rewrite !set_body_same. apply IH.
+Qed.
+
+(* Builder.Build() preserves purity: a chain of hooks each of which leaves the body alone and
+   decides on status and headers only is itself such a hook - for ANY list of hooks *)
+Theorem chain_pure_lemma {B} (hs : list (ghook B)) :
+  Forall pure_hook hs -> pure_hook (gchain hs).
+Proof.
+  intros HF. destruct hs as [|h hs].
+  - intros r. split; [reflexivity|]. intros b. reflexivity.
+  - exact (gchain_loop_pure (h :: hs) HF).
+Qed.
+
+Lemma gchain_loop_hook_fn {B} hooks dl (r : resp B) :
+  gchain_loop (map (hook_fn dl) hooks) r =
+  (chain_loop hooks dl (rs_status r) (header_get cf_key (rs_header r)), rs_body r).
+Proof.
+  induction hooks as [|h hooks IH]; [reflexivity|].
+  cbn [map gchain_loop chain_loop]. unfold hook_fn at 1.
+  destruct (run_hook h dl (rs_status r) (header_get cf_key (rs_header r))) as [d why].
+  destruct d; [reflexivity|]. rewrite set_body_same. exact IH.
+Qed.
+
+(* the chains the code builds: for every list of the code's hooks, every discard list and every
+   response - whatever its other headers (Server, ...) and whatever its body - the verdict is
+   the one [chain] computes from the status code and Header.Get("cf-mitigated") alone, and the
+   body reader is handed on untouched *)
+Theorem hooks_pure_lemma {B} hooks dl (r : resp B) :
+  gchain (map (hook_fn dl) hooks) r =
+  (chain hooks dl (rs_status r) (header_get cf_key (rs_header r)), rs_body r).
+Proof.
+  destruct hooks as [|h hooks]; [reflexivity|].
+  exact (gchain_loop_hook_fn (h :: hooks) dl r).
+Qed.
+
+(* ... hence the recorder digests (and keys local dedupe on) the payload itself exactly when the
+   policy keeps the exchange: two kept exchanges get the same WARC-Payload-Digest input only if
+   their payloads are identical - a revisit record can only stand for an identical payload *)
+Theorem recorder_payload_lemma {B} hooks dl (r : resp B) :
+  recorder_payload (Some (gchain (map (hook_fn dl) hooks))) r =
+  if fst (chain hooks dl (rs_status r) (header_get cf_key (rs_header r))) then None else Some (rs_body r).
+Proof.
+  unfold recorder_payload. rewrite hooks_pure_lemma.
+  destruct (chain hooks dl (rs_status r) (header_get cf_key (rs_header r))) as [d why]. reflexivity.
+Qed.
+
+Theorem revisit_identical_lemma {B} hooks dl (r1 r2 : resp B) p :
+  recorder_payload (Some (gchain (map (hook_fn dl) hooks))) r1 = Some p ->
+  recorder_payload (Some (gchain (map (hook_fn dl) hooks))) r2 = Some p ->
+  rs_body r1 = p /\ rs_body r2 = p.
+Proof.
+  rewrite !recorder_payload_lemma.
+  destruct (fst (chain hooks dl (rs_status r1) _)); [discriminate|].
+  destruct (fst (chain hooks dl (rs_status r2) _)); [discriminate|].
+  intros H1 H2. split; congruence.
+Qed.
+
+(* why the body must be left alone: with a hook in the chain that keeps the response but eats
+   the head of the body, two DIFFERENT payloads with a common tail reach the recorder's digest
+   as the same bytes (a false identical-payload revisit), and neither digest is the payload's *)
+Theorem impure_hook_refuted :
+  exists (r1 r2 : resp bytes) dl,
+    rs_body r1 <> rs_body r2 /\
+    let hook := Some (gchain (peeking_hook 4 :: map (hook_fn dl) default_hooks)) in
+    recorder_payload hook r1 = recorder_payload hook r2 /\
+    recorder_payload hook r1 <> Some (rs_body r1).
+Proof.
+  exists (Resp 403 [(bs "Server", [bs "cloudflare"])] (bs "id=Atail")),
+         (Resp 403 [(bs "Server", [bs "cloudflare"])] (bs "id=Btail")), [429].
+  split; [discriminate|]. vm_compute. split; [reflexivity|discriminate].
+Qed.
+
+Example hooks_pure_nonvacuous :
+  gchain (map (hook_fn [404]) default_hooks)
+         (Resp 403 [(bs "Cf-Mitigated", [bs "challenge"]); (bs "Server", [bs "cloudflare"])] (bs "<html>"))
+    = ((true, RChallenge), bs "<html>")
+  /\ gchain (map (hook_fn [404]) default_hooks) (Resp 403 [(bs "Server", [bs "cloudflare"])] (bs "<html>"))
+    = ((false, RAllPassed), bs "<html>")
+  /\ gchain (map (hook_fn [404]) default_hooks) (Resp 403 [(bs "cf-mitigated", [bs "challenge"])] (bs "x"))
+    = ((false, RAllPassed), bs "x")
+  /\ recorder_payload (Some (gchain (map (hook_fn [404]) default_hooks))) (Resp 403 [(bs "Server", [bs "cloudflare"])] (bs "<html>"))
+    = Some (bs "<html>")
+  /\ recorder_payload (Some (gchain (map (hook_fn [404]) default_hooks))) (Resp 404 [] (bs "<html>")) = None
+  /\ pure_hook (@gchain bytes (map (hook_fn [404]) default_hooks))
+  /\ ~ pure_hook (peeking_hook 4).
+Proof.
+  repeat split; try reflexivity.
+  - apply chain_pure_lemma. repeat constructor; apply hook_fn_pure.
+  - apply chain_pure_lemma. repeat constructor; apply hook_fn_pure.
+  - intros H. destruct (H (Resp 403 [] (bs "abcdef"))) as [Hb _]. vm_compute in Hb. discriminate.
+Qed.
